@@ -1,5 +1,7 @@
 package scen
 
+import "strconv"
+
 // Opts are the effective settings of a method: interface notations are the defaults, method
 // notations override them (C09); within one level the last occurrence wins.
 type Opts struct {
@@ -95,7 +97,7 @@ func Roles(o Opts, nExtras int) []string {
 		r = []string{"src"}
 	}
 	for i := 0; i < nExtras; i++ {
-		r = append(r, "x"+string(rune('0'+i)))
+		r = append(r, "x"+strconv.Itoa(i))
 	}
 	return r
 }
